@@ -182,13 +182,34 @@ func checkLHS(
 	return nil
 }
 
+// fieldOwnerType returns the type of the value whose field the selector denotes.
+// For "x.f" this is the type of x, unless f is promoted through embedded fields
+// ("x.f" standing for "x.E.f"): then it is the type of the innermost embedded value.
+func fieldOwnerType(ctx *checkerContext, selector *ast.SelectorExpr) types.Type {
+	sel := ctx.pass.TypesInfo.Selections[selector]
+	if sel == nil || sel.Kind() != types.FieldVal || len(sel.Index()) < 2 {
+		return ctx.pass.TypesInfo.TypeOf(selector.X)
+	}
+
+	t := sel.Recv()
+	path := sel.Index()
+	for _, i := range path[:len(path)-1] {
+		st, ok := util.Deref(t).Underlying().(*types.Struct)
+		if !ok || i >= st.NumFields() {
+			return ctx.pass.TypesInfo.TypeOf(selector.X)
+		}
+		t = st.Field(i).Type()
+	}
+	return t
+}
+
 func checkFieldAssignment(
 	ctx *checkerContext,
 	stmt *ast.AssignStmt,
 	selector *ast.SelectorExpr,
 ) *ImmutableViolation {
 	// Get type of the receiver (t in t.field)
-	receiverType := ctx.pass.TypesInfo.TypeOf(selector.X)
+	receiverType := fieldOwnerType(ctx, selector)
 	if receiverType == nil {
 		return nil
 	}
@@ -240,7 +261,7 @@ func checkIndexAssignment(
 		return nil
 	}
 
-	receiverType := ctx.pass.TypesInfo.TypeOf(selector.X)
+	receiverType := fieldOwnerType(ctx, selector)
 	if receiverType == nil {
 		return nil
 	}
@@ -314,7 +335,7 @@ func checkFieldIncDec(
 	node *ast.IncDecStmt,
 	selector *ast.SelectorExpr,
 ) *ImmutableViolation {
-	receiverType := ctx.pass.TypesInfo.TypeOf(selector.X)
+	receiverType := fieldOwnerType(ctx, selector)
 	if receiverType == nil {
 		return nil
 	}
@@ -438,7 +459,7 @@ func checkCompoundLHS(
 		return nil
 	}
 
-	receiverType := ctx.pass.TypesInfo.TypeOf(selector.X)
+	receiverType := fieldOwnerType(ctx, selector)
 	if receiverType == nil {
 		return nil
 	}
